@@ -223,6 +223,23 @@ def byteset_rule(ctx, r):
                 any(is_call(x, "core::iter::traits::iterator::Iterator::next") for x in walk(item)) and \
                 any(is_call(x, "core::ops::range::RangeInclusive::new") for x in walk(item)) and \
                 not any(x.k == "bin" for x in walk(item))
+        if not ok_ and rn and not each:
+            # the adapter spelling: (start..=end).for_each(|b| self.add(b)) — for_each visits every element, the closure hands its
+            # parameter on unchanged
+            fe = [c for c in f.calls() if c.path.endswith("Iterator::for_each")]
+            a0, a1 = strip(eb.operand(rn[0].args[0])), strip(eb.operand(rn[0].args[1]))
+            for c in fe:
+                recv = eb.operand(c.args[0])
+                for x in walk(eb.operand(c.args[1])):
+                    g_ = facts.fns.get(x[1]) if x.k == "closure" else None
+                    if g_ is None:
+                        continue
+                    inner = g_.calls_to(BS + one)
+                    if inner and a0.k == "arg" and a0[1] == 2 and a1.k == "arg" and a1[1] == 3 and \
+                            any(is_call(y, "core::ops::range::RangeInclusive::new") for y in walk(recv)) and \
+                            not any(y.k == "call" and "Iterator::" in y[1] for y in walk(recv)):
+                        item_ = strip(ExprBuilder(g_).operand(inner[0].args[1]))
+                        ok_ = item_.k == "arg" and item_[1] == 2
         if ok_:
             r.ok("byteset|" + nm, "for b in start..=end { %s(b) }" % one, fn=f)
         else:
